@@ -319,6 +319,54 @@ def attach_rule(prog, chk):
     chk.floor("C06m", n, 2)
 
 
+def ball_population_rule(prog, chk):
+    """C06t - the ball tree queried by the moving search holds exactly the samples that may be admitted: it is built from the ACTIVE
+    samples (useSel = true) and its answers (ranks among the active samples) are converted to sample ranks before they are used.  Built
+    from all the samples, the masked ones take places among the nmaxi points returned and the neighbourhood has fewer samples than the
+    nmaxi closest active ones."""
+    n = 0
+    f = prog.fn("ANeigh::attachBall")
+    chk.analysed(f)
+    inits = [c for c in f.calls() if (c.get("callee") or "") == "Ball::init"]
+    for c in inits:
+        a = call_args(c)
+        sel = a[4] if len(a) > 4 else None
+        while sel is not None and sel["k"] == "Cast":
+            sel = sel["c"][0]
+        ok = sel is not None and sel["k"] == "Bool" and sel["v"] is True
+        n += 1
+        chk.ob("C06t", "ANeigh::attachBall builds the tree from the active samples only", f.loc(c), ok,
+               detail=None if ok else "the tree is built from every sample: masked samples are returned among the nmaxi closest points and then discarded, so the "
+               "neighbourhood holds fewer samples than the nmaxi closest active ones", key="C06t|attachBall|useSel")
+    m = prog.fn("NeighMoving::_moving")
+    chk.analysed(m)
+    for c in m.calls():
+        if (c.get("callee") or "") == "Ball::getIndices":
+            # the variable receiving the answer: every element read from it goes through getRankRelativeToAbsolute
+            par = m.parent(c)
+            tgt = None
+            while par is not None and par["k"] in ("Cast", "Construct", "Temp", "Bind"):
+                par = m.parent(par)
+            if par is not None and par["k"] in ("Assign", "OpCall") and par["c"][0] is not None and par["c"][0]["k"] == "DeclRefExpr":
+                tgt = par["c"][0]["d"]
+            elif par is not None and par["k"] == "VarDecl":
+                tgt = par["d"]
+            if tgt is None:
+                continue
+            for x in m.walk():
+                if (x["k"] == "Index" or (x["k"] == "OpCall" and x.get("op") == "[]")) and len(x.get("c") or []) == 2 and x["c"][0] is not None and \
+                        x["c"][0]["k"] == "DeclRefExpr" and x["c"][0].get("d") == tgt:
+                    n += 1
+                    up = m.parent(x)
+                    while up is not None and up["k"] == "Cast":
+                        up = m.parent(up)
+                    ok = up is not None and up["k"] == "MCall" and (up.get("callee") or "").endswith("::getRankRelativeToAbsolute")
+                    chk.ob("C06t", "NeighMoving::_moving converts the answers of the tree (ranks among active samples) to sample ranks", m.loc(x), ok,
+                           detail=None if ok else "`%s` is used as a sample rank although the tree numbers the active samples only" % show(x)[:30],
+                           key="C06t|_moving|conversion")
+    chk.floor("C06t", n, 2)
+
+
 def ball_count_rule(prog, chk):
     """C06b - the number of points asked from the ball tree is bounded by the number of points it holds (the tree refuses
     k > n and the search then fails for EVERY target, although 'the nmaxi closest' are simply all the samples)."""
@@ -489,4 +537,5 @@ def main(tier):
     ball_count_rule(prog, chk)
     distance_use_rule(prog, chk)
     attach_rule(prog, chk)
+    ball_population_rule(prog, chk)
     return chk.finish()
